@@ -183,6 +183,10 @@ func jlRandCols(r *rng, depth int) []jlCol {
 		names[i], names[j] = names[j], names[i]
 	}
 	n := 1 + r.intn(4)
+	if n >= 2 && r.chance(1, 6) {
+		// a name declared twice at the same level (position of the first mention, descriptors of the last)
+		names[n-1] = names[r.intn(n-1)]
+	}
 	var cols []jlCol
 	for i := 0; i < n; i++ {
 		if depth < 2 && r.chance(1, 7) {
